@@ -376,15 +376,20 @@ pub fn run(args: &Args) -> Report {
     styles.push(Style::Malformed { value: vec![0, 0, 1], what: "3-bytes" });
     styles.push(Style::Malformed { value: [vec![0, 0, 0, 9], vec![b'x'; 1025]].concat(), what: "reason-1025" });
     styles.push(Style::Malformed { value: vec![0, 0, 0, 9, 0xff, 0xfe], what: "non-utf8" });
-    // abrupt ends: FIN inside a frame, at every structurally different offset
-    let unknown = h3::frame(h3::grease(5), &vec![0xAB; 600]);
-    let hdr = unknown.len() - 600;
-    let mut cuts: Vec<usize> = vec![1, hdr - 1, hdr, hdr + 1, hdr + 255, hdr + 256, hdr + 257, hdr + 512, hdr + 599];
-    if args.thorough {
-        cuts.extend([hdr + 2, hdr + 128, hdr + 511, hdr + 513, hdr + 300]);
-    }
-    for c in cuts {
-        styles.push(Style::Truncated { bytes: unknown[..c].to_vec(), what: format!("unknown-frame@{}", if c <= hdr { format!("header+{c}") } else { format!("payload+{}", c - hdr) }) });
+    // abrupt ends: FIN inside a frame, at every structurally different offset; for a reserved
+    // (GREASE) type, for a type this endpoint does not implement and for an unassigned one
+    for (ty, tn) in [(h3::grease(5), "grease"), (h3::FRAME_GOAWAY, "goaway"), (0x42_4242u64, "unassigned")] {
+        let unknown = h3::frame(ty, &vec![0xAB; 600]);
+        let hdr = unknown.len() - 600;
+        let mut cuts: Vec<usize> = vec![1, hdr - 1, hdr, hdr + 1, hdr + 255, hdr + 256, hdr + 257, hdr + 512, hdr + 599];
+        if args.thorough {
+            cuts.extend([hdr + 2, hdr + 128, hdr + 511, hdr + 513, hdr + 300, hdr + 64, hdr + 1024 - 512]);
+        }
+        cuts.sort();
+        cuts.dedup();
+        for c in cuts {
+            styles.push(Style::Truncated { bytes: unknown[..c].to_vec(), what: format!("{tn}-frame@{}", if c <= hdr { format!("header+{c}") } else { format!("payload+{}", c - hdr) }) });
+        }
     }
     let close = h3::frame(h3::FRAME_DATA, &capsule::close(7, b"never complete"));
     for c in [1usize, 2, 3, 6, close.len() - 1] {
